@@ -435,6 +435,54 @@ def _many_dates_case(ctx, n_dates, rounds) -> F.Outcome:
     return out
 
 
+# first words a ZID-less item can start with (after kind and an optional real priority)
+_WB_LEADS = ["plain", "P1", "P2P", "P100", "P", "Px", "o", "x", "1230", "p1"]
+
+
+def _writeback_case(ctx, kind_prefix: str) -> F.Outcome:
+    """(a4) A ZID handed out by the index is written into the page; the page, compiled again,
+    must show exactly that ZID as the note's own.  One page per kind/priority prefix with one
+    ZID-less item per leading word, indexed by the real `db create`."""
+    from mc.core import zdir as Z
+
+    out = F.Outcome()
+    day = H.rotate(_DATE_POOLS, ctx.seed)[0][0]
+    H.freeze(day)
+    lines = [f"{kind_prefix} {w} body of item {k}" for k, w in enumerate(_WB_LEADS)
+             if not (w == "P1" and kind_prefix in "ox~<>")]  # that would be the todo's priority
+    zd = Z.make_zdir({"w.zo": "# write-back page\n\n" + "\n".join(lines) + "\n"}, "c07w")
+    problems = []
+    try:
+        r = Z.db_create(zd, day)
+        if not Z.cli_ok(r):
+            problems.append(("db-create-failed-on-valid-page", {"stderr": r.err[-400:]}))
+        else:
+            text = (zd / "w.zo").read_text()
+            res = zo.compile_text(text, name="wb.zo")
+            if res["exc"] or res["nsyntax"] or res["has_errors"]:
+                problems.append(("rewritten-page-no-longer-valid", {"page": text, "nsyntax": res["nsyntax"], "exc": res["exc"]}))
+            else:
+                seen = set()
+                for n in res["notes"]:
+                    first = text.split("\n")[n["line"] - 1]
+                    if not n["zid"]:
+                        problems.append(("allocated-zid-not-recognised-as-the-notes-own", {"line": first}))
+                    elif n["zid"] in seen:
+                        problems.append(("same-zid-on-two-notes", {"zid": n["zid"]}))
+                    seen.add(n["zid"])
+                if len(res["notes"]) != len(lines):
+                    problems.append(("number-of-notes-changed-by-write-back", {"expected": len(lines), "observed": len(res["notes"]), "page": text}))
+        out.obs = H.digest([kind_prefix, [p[0] for p in problems]])
+        out.nontrivial = H.digest(["wb", kind_prefix])
+        if problems:
+            out.ok = False
+            out.sig = "write-back:" + problems[0][0]
+            out.detail = {"item_prefix": kind_prefix, "written": lines, "problem": problems[0][1], "all": [p[0] for p in problems]}
+    finally:
+        Z.drop(zd)
+    return out
+
+
 def _params(ctx):
     return {"bfs_depth": 4 if ctx.quick else 6,
             "suffix_set": "all 2-char + carry neighbourhoods of 3-char" if ctx.quick else "all 135252"}
@@ -444,6 +492,8 @@ def _cases(ctx):
     dates = H.rotate(_DATE_POOLS, ctx.seed)[0]
     p = _params(ctx)
     cases = [["chain"], ["alloc_chain"]]
+    for kp in ("-", "o", "o P3", "x", "x P0", "~", "<", "< P9", ">", "- 2024-02-03", "o P2 2024-02-03"):
+        cases.append(["writeback", kp])
     for i in range(len(_initial_contents(dates))):
         cases.append(["bfs", i, p["bfs_depth"]])
     for n in range(1, 13 if ctx.quick else 25):
@@ -474,6 +524,8 @@ def _run_case(ctx, case) -> F.Outcome:
         return _many_dates_case(ctx, case[1], case[2])
     if kind == "suffixes":
         return _suffix_chunk_case(ctx, case[2], case[1])
+    if kind == "writeback":
+        return _writeback_case(ctx, case[1])
     raise H.HarnessError(f"bad case {case!r}")
 
 
@@ -497,7 +549,9 @@ def run(ctx: F.Ctx):
             "ZIDManager.get_next on a real directory (manager re-created every 9973 "
             "allocations); (a3) for every suffix in the tier's set: ZID lexed by both "
             "generated lexers as exactly one ZID token, compiled back as a note's identity "
-            "alone and behind a modify date; (b) BFS over histories of "
+            "alone and behind a modify date; (a4) ZID-less items whose body starts with prefix look-alikes "
+            "(P1, P2P, P100, o, x, ...) under 11 kind/priority/date prefixes are given ZIDs by the real db create and "
+            "the rewritten page must compile to notes that own exactly those ZIDs; (b) BFS over histories of "
             "{alloc d1, alloc d2, alloc d3, restart (new manager), newproc (fresh process), x1/x2 = "
             "another live process allocates on d1/d2 in between} from 9 initial next_ids.json "
             "contents (every carry/skip point), each history executed on a fresh real "
